@@ -190,7 +190,9 @@ def translate_alt(a: Alt, dialect: str) -> Alt:
 def _translate_nested(it: Item, dialect: str) -> Item:
     if isinstance(it, Group):
         alts = it.alts
-        if dialect == "X" and _rhs_helper_applies(alts):
+        # the compact form is not taken by a rule that has clean-up statements (`…without_invalid`) or an invalid_ alternative:
+        # both need the long form (returns through add_return; the call_invalid_rules gate)
+        if dialect == "X" and _rhs_helper_applies(alts) and not _mentions_invalid(alts):
             return Group([_seq_alt(a, dialect) for a in alts], pos=it.pos)
         return Group([translate_alt(a, dialect) for a in alts], pos=it.pos)
     if isinstance(it, Opt):
@@ -208,6 +210,12 @@ def _translate_nested(it: Item, dialect: str) -> Item:
 
 def _rhs_helper_applies(alts: list[Alt]) -> bool:
     return len(alts) > 1 and not any(a.action_src for a in alts) and not any(len(a.items) > 1 for a in alts)
+
+
+def _mentions_invalid(alts: list[Alt]) -> bool:
+    """What the generator's InvalidNodeVisitor answers for a right-hand side: some item names a rule spelled `invalid…`."""
+    from .ir import walk_alt_items
+    return any(isinstance(it, Ref) and it.name.startswith("invalid") for a in alts for it in walk_alt_items(a))
 
 
 def _seq_alt(a: Alt, dialect: str) -> Alt:
@@ -251,7 +259,7 @@ def translate_grammar(g: Grammar, dialect: str, pegen_compat_leftrec: bool = Tru
             deco = None
         e = Rule(name=r.name, type=r.type, alts=[], memo=r.memo, decorator=deco, pos=r.pos)
         e.brackets_invalid = r.name.endswith("without_invalid")
-        if dialect == "X" and _rhs_helper_applies(alts):
+        if dialect == "X" and _rhs_helper_applies(alts) and not e.brackets_invalid and not _mentions_invalid(alts):
             e.whole_seq_alts = True
             e.alts = [_seq_alt(a, dialect) for a in alts]
         else:
